@@ -176,7 +176,7 @@ func runCheck(prop, tier string, seed uint64) int {
 		"nontrivial_distinct_is_lower_bound": m.nontrivOv > 0,
 		"simulated_runs":                     m.runs,
 		"scheduler_steps_total":              m.steps,
-		"simulated_time_note":                "the code under test has no clock; simulated time is reported as scheduler steps",
+		"simulated_time_note":                "the library can only read the simulated clock (its time.Now/Since/Until/Sleep calls are redirected in the scratch copy): 1 us per scheduler step in three of the four clock modes, plus sleeps and leaps; counters.simulated_clock_us is the simulated time covered, counters.clock_readings how often the code looked (0 = this tree never reads a clock)",
 		"runs_per_hour":                      int64(float64(m.runs) / wall * 3600),
 		"run_index_range":                    fmt.Sprintf("batch seed %d, seeded run indices 0..%d split over %d worker processes (a worker stops drawing seeded runs at its wall budget; the systematic corpus, if any, is split evenly among the workers and always runs completely; 'evaluations' is what actually ran)", seed, b.runs, 16),
 		"distinct_interleavings":             len(m.inter),
@@ -247,6 +247,12 @@ func replayFile(path string) int {
 	}
 	if err := s.build(mode); err != nil {
 		return trouble("build failed: %v", err)
+	}
+	if rf.Arch == "386" {
+		bin, env = filepath.Join(s.dir, "simworker.386"), nil
+		if !fileExists(bin) {
+			return trouble("the replay file comes from the 32-bit worker, which could not be built here")
+		}
 	}
 	out, code := runTool(bin, env, "replay", path)
 	fmt.Print(out)
